@@ -121,17 +121,13 @@ Verdict judge(const Case& c) {
         if (w.w == want && !w.on) continue;
         // mismatch: is it the isolated sub-grid near-touch artefact of the clean-up union (KF-ENG-a)?  A wrong sign,
         // factor, normal or lost hole is systematic in delta; the artefact disappears when delta moves a fraction of a unit.
-        bool persists = false;
-        if (ad >= 2.0) {
-          for (double pd : {0.37, -0.37, 0.73, -0.73}) {
-            double d2 = delta + pd;
-            int e2 = expect(cx, k, d2, jt, ml, at);
-            if (e2 < 0) continue;
-            Paths64 s2 = offset(poly, d2, jt, ml, at, rev);
-            O::Wn w2 = O::winding(cx.pts[k], s2);
-            if (w2.w != (e2 ? sign : 0) || w2.on) { persists = true; break; }
-          }
-        } else persists = true;
+        bool persists = ad < 2.0 || !OFS::isolatedInDelta(ad, 0.5, [&](double a2) {
+          double d2 = sg * a2;
+          int e2 = expect(cx, k, d2, jt, ml, at);
+          if (e2 < 0) return -1;
+          O::Wn w2 = O::winding(cx.pts[k], offset(poly, d2, jt, ml, at, rev));
+          return (w2.w != (e2 ? sign : 0) || w2.on) ? 1 : 0;
+        });
         if (!persists) { v.known = "KF-ENG-a"; ST.count("mismatch_vanishing_under_delta_perturbation"); continue; }
         char buf[160];
         snprintf(buf, sizeof buf, " signed distance to the input region %.3Lf", cx.d[k]);
